@@ -1,21 +1,22 @@
 PROP = {'title': 'Algorithm and container helpers equal their straightforward reference',
  'level': 'exploration',
  'engine': 'E',
- 'technique': 'exhaustive enumeration of all sequences over {0,1,2} up to length 6, all strings over {a,b,#} up to length 7, all maps '
-              'over 5 keys, with all predicates / element functions on the 3-element domain, for every source kind, against hand-written '
+ 'technique': 'exhaustive enumeration of all sequences over {0,1,2} up to length 7, all strings over {a,b,#} up to length 8, all maps '
+              'over 6 keys, with all predicates / element functions on the 3-element domain, for every source kind, against hand-written '
               'loops (results, visit order, call counts, iterator positions, reference identity)',
  'level_text': 'Every input of the stated finite domains is run through the real templates and compared with a loop-based reference that '
-               'shares no code with fcppt: all 1093 sequences x all 27 element functions / 8 predicates / 64 partial functions / every '
+               'shares no code with fcppt: all 3280 sequences (quick: 364) x all 27 element functions / 8 predicates / 64 partial functions / every '
                'break position, for vector, list, deque, set, multiset, map, string, fcppt array, tuple, mpl list, int and enum ranges and '
                'three ranges of unknown size; callbacks log their arguments, so order of visits and early stops are checked, not only '
                'results. That is the complete input space up to the bound, which the one-container-per-function tests do not give.',
- 'level_note': 'bounded: sequence length <= 6 (quick 5), string length <= 7 (quick 6), element alphabet of size 3, map keys <= 5 (quick 4), '
+ 'level_note': 'bounded: sequence length <= 7 (quick 5; DESIGN.md asks for 6), string length <= 8 (quick 6; DESIGN 7), element alphabet of size '
+               '3, map keys <= 6 (quick 4), set universe 7 (quick 5), '
                'array/tuple sizes 0..4; element type int/char (move-only elements are left to the unit tests); fold-like functions are '
                'run with the free (term-building) function, which fixes the result for every function by parametricity',
  'binaries': [{'name': 'C16',
                'sources': ['harness/C16.cpp', 'harness/C16_algorithm.cpp', 'harness/C16_algorithm2.cpp', 'harness/C16_container.cpp',
                            'harness/C16_array_tuple.cpp'],
-               'libs': [], 'flavour': 'asan', 'extra_flags': ['-I/tmp/C16_scratch/overlay']}],
+               'libs': [], 'flavour': 'asan'}],
  'compile_probes': [{'name': 'array_append_lvalue', 'source': 'harness/C16_probe_array_append_lvalue.cpp'},
                     {'name': 'array_push_back_lvalue', 'source': 'harness/C16_probe_array_push_back_lvalue.cpp'},
                     {'name': 'array_join_lvalue', 'source': 'harness/C16_probe_array_join_lvalue.cpp'},
@@ -24,8 +25,8 @@ PROP = {'title': 'Algorithm and container helpers equal their straightforward re
  'rule': 'nested loops over explicit domains: every sequence over {0,1,2} up to the length bound (as vector, list, deque, set, multiset, '
          'string, fcppt array, tuple, sized / unsized custom range, passed as const lvalue, lvalue and rvalue) x every parameter of the '
          'function (27 element functions, 8 predicates, 64 partial functions, every value -1..3, every break position, every removal '
-         'mask); every string over {a,b,#} x 3 delimiters; every map with keys in 0..4 and values in {0,1,2}; every pair of subsets of a '
-         '6-element universe; a case is one (instantiation, input, parameter) tuple and is non-trivial when the range has at least two '
+         'mask); every string over {a,b,#} x 3 delimiters; every map with keys in 0..5 and values in {0,1,2}; every pair of subsets of a '
+         '7-element universe; a case is one (instantiation, input, parameter) tuple and is non-trivial when the range has at least two '
          'elements / the early stop, removal, duplicate or boundary that the function is about actually occurs (per-function predicate '
          'in the harness sources)',
  'assumptions': ['std::equal_range precondition: cases where the sequence is not partitioned with respect to the searched value are skipped '
@@ -35,5 +36,9 @@ PROP = {'title': 'Algorithm and container helpers equal their straightforward re
                  'reaches the deciding element; calls after the decision are counted, not asserted (not documented)',
                  'get_or_insert_with_result: inserted() is read as documented at get_or_insert_result::inserted (true = inserted); the '
                  'function\'s own doc comment states the opposite and is taken to be a typo',
-                 'array::append / join / push_back and tuple::concat with lvalue arguments are checked by compile probes only',
+                 'array::append / join / push_back and tuple::concat with lvalue arguments are checked by compile probes only (rvalue arguments '
+                 'are enumerated)',
+                 'lvalue arguments must be left unchanged (checked with std::string elements); that rvalue arguments are really moved from is '
+                 'not asserted',
+                 'an exception escaping from an fcppt call is recorded as crash:<fn>:terminate for the announced case',
                  'index_map::get: insert() is expected to be called once per missing element, results stored in index order']}
